@@ -302,8 +302,16 @@ def r3_no_wrap(ctx):
         if (nm.startswith("wrapping_") or nm.startswith("overflowing_")) and any(q.contains(a, fm_pred) for a in e[2]):
             n += 1
             r.violation("wrapping/%s" % nm, "%s on a multiplier-derived value: the multiplier wraps around instead of stopping at the end of its range (%s)" % (nm, show(e, 160)), mv.where(bi))
+    # an assertion about the multiplier on the sealing path turns a vote the rule permits (or forbids) into an abort of `seal`: the step is specified
+    # as a saturating, clamped movement — there is no input for which sealing may fail because of it
+    hosts = [b for b in (ctx.prog.body("melstf::state::UnsealedState::seal"), ctx.prog.body("melstf::state::UnsealedState::apply_proposer_action"), mv) if b is not None]
+    for st in panics.inventory(ctx.prog, [x for h_ in hosts for x in ctx.prog.all_nested(h_)]):
+        if st.kind == "panic" and any(q.contains(o, fm_pred) for o in st.operands):
+            n += 1
+            r.violation("abort/%s" % st.body.nname.split("::")[-1], "sealing panics unless %s: the multiplier step is specified for every vote and every multiplier (with the floor of 2 after TIP-901 a step may exceed fm>>7), "
+                        "so this assertion makes some permitted votes abort the block" % ", ".join(show(o, 140) for o in st.operands), st.where())
     if n == 0:
-        r.ok("no-wrap", "no lossy cast and no overflow assertion on the multiplier path")
+        r.ok("no-wrap", "no lossy cast, no overflow assertion and no panic condition on the multiplier path")
 
 
 def shared(ctx):
